@@ -5,7 +5,7 @@ proofs : lean/PyAbel/Props/C11.lean (StepAnalytical and GaussianAnalytical: abel
          parameter value; built on Lemmas/Abel.lean and Mathlib's Gaussian integral)
 K      : StepAnalytical / GaussianAnalytical arrays vs the closed forms the theorems are about (evaluated in numpy from
          the theorem statements: 2A₀(hc(r₂²−x²) − hc(r₁²−x²)), σ√π A₀ e^{−x²/σ²})
-         lean/PyAbel/Props/C11Profiles.lean (TransformPair profiles 1, 2, 3, 4, 5, 7: the coded `projection` expression, branch
+         lean/PyAbel/Props/C11Profiles.lean + C11Profile6.lean (TransformPair profiles 1-7: the coded `projection` expression, branch
          by branch, is 2∫ source(√(x²+z²)) dz for every 0 < x < 1 — corollaries of C10.polynomial_abel)
 K      : … and the driver op `profile k x` (Model/Profiles.lean, the expressions the theorems are about) vs
          abel.tools.transform_pairs.profile<k> at random and special radii (breakpoints, the TransformPair end offsets)
@@ -78,7 +78,7 @@ def correspondence(ck, tier):
     from abel.tools import transform_pairs
     from abel.tools.analytical import TransformPair
     lines, refs = [], []
-    for k in (1, 2, 3, 4, 5, 7):
+    for k in (1, 2, 3, 4, 5, 6, 7):
         xs = list(rng.uniform(1e-6, 1, size=60 if tier == "quick" else 600)) + [0.25, 0.5, 0.7, np.nextafter(0.25, 1), np.nextafter(0.5, 1), np.nextafter(0.7, 1), np.nextafter(0.7, 0), 1e-8, 1 - 1e-8]
         tp = quiet(TransformPair, int(rng.integers(5, 200)), profile=k)         # the class: same functions on its own grid
         grid = tp.r.copy()
@@ -190,6 +190,21 @@ def oracle(ck, tier, deep):
     names = ["Dribinski", "Gaussian", "Gerber", "O2", "Ominus"]
     sizes = [61, 100, 33] if not deep else [61, 100, 201, 361, 25, 33, 41]
     lattice = np.exp(np.log(1e-3) + (np.arange(12) + rng.uniform()) / 12 * (np.log(5e-2) - np.log(1e-3)))   # between the documented values too
+    for name in names:          # (every name once with the width as a 0-d array: the objects below take it at random)
+        arr = np.array(float(rng.uniform(1.5, 4.0)))
+        keep = arr.copy()
+        ck.count(("S.sample-sigma-type", name, "fixed"), suite="S.sample-images")
+        try:
+            sa = quiet(analytical.SampleImage, 41, name=name, sigma=arr)
+            abel_a = np.array(sa.abel)
+            sf = quiet(analytical.SampleImage, 41, name=name, sigma=float(keep))
+            da = float(np.abs(abel_a - sf.abel).max()) / max(1.0, float(np.abs(sf.abel).max()))
+            if not da <= 1e-6 or not np.array_equal(arr, keep):
+                ck.violation(dict(site="SampleImage", clause="sigma-type", name=name), dict(name=name, n=41, sigma=float(keep), sigma_type="0-d array"),
+                             f"SampleImage(41, {name!r}, sigma=np.array({float(keep)!r})): " + ("the caller's array was changed to %r" % arr if not np.array_equal(arr, keep)
+                                                                                                else f"abel differs from that for the float by {da:.3g} of its maximum"))
+        except Exception as e:
+            ck.violation(dict(site="SampleImage", clause="exception", name=name), dict(name=name, sigma="0-d array"), f"{type(e).__name__}: {e}")
     for name in names:
       for n in sizes:
         for rep_i in range(1 if name in ("Gaussian", "O2") else 3):
@@ -205,6 +220,20 @@ def oracle(ck, tier, deep):
             ck.count(("S.sample", name, n % 2, "sigma" in kw), suite="S.sample-images")
             rep = dict(name=name, n=n, tol=tol, **kw)
             try:
+                if "sigma" in kw and rep_i != 2:
+                    # the width may be given as any number-like object: a 0-d array or a NumPy scalar is the same width as its float, and is
+                    # the caller's (repair F67: the O2 image doubled it in place — wrong transform, changed argument)
+                    arr = [np.array(kw["sigma"]), np.array(kw["sigma"]), np.float32(kw["sigma"]), np.float64(kw["sigma"])][int(rng.integers(0, 4))]
+                    keep = np.array(arr, copy=True)
+                    sa = quiet(analytical.SampleImage, n, name=name, **dict(kw, sigma=arr))
+                    sf = quiet(analytical.SampleImage, n, name=name, **dict(kw, sigma=float(keep.ravel()[0])))
+                    ck.count(("S.sample-sigma-type", name, type(arr).__name__, np.ndim(arr)), suite="S.sample-images")
+                    da = float(np.abs(np.asarray(sa.abel) - sf.abel).max()) / max(1.0, float(np.abs(sf.abel).max()))
+                    df = float(np.abs(np.asarray(sa.func) - sf.func).max()) / max(1.0, float(np.abs(sf.func).max()))
+                    if not (da <= 1e-6 and df <= 1e-6) or not np.array_equal(arr, keep):
+                        ck.violation(dict(site="SampleImage", clause="sigma-type", name=name), dict(rep, sigma_type=f"{type(arr).__name__}, ndim {np.ndim(arr)}"),
+                                     f"SampleImage({n}, {name!r}, sigma={arr!r}): " + ("the caller's sigma object was changed" if not np.array_equal(arr, keep) else
+                                                                                         f"func / abel differ from those for the float by {df:.3g} / {da:.3g} of their maximum"))
                 s = quiet(analytical.SampleImage, n, name=name, **kw)
                 if rng.random() < 0.5 and rep_i == 0:
                     _ = s.abel                       # a first transform with the default tolerance must not fix later ones
@@ -283,15 +312,16 @@ def run(tier):
                       "x sigma / temperature / tol at random pixels (exact for Gaussian and O2, within 1.05·tol·ΣA·chord otherwise); "
                       "grid and layout facts. distinct = (suite, class/profile/name, parity/decile)")
     ck.cov["trusted_base"] = ["Lean 4.33 kernel", "axioms propext/Classical.choice/Quot.sound",
-                              "theorems cover StepAnalytical, GaussianAnalytical and TransformPair profiles 1, 2, 3, 4, 5, 7 (as real functions; tied to the "
-                              "code by evaluating the Lean expressions in Float next to the shipped functions); profile 6 and the "
+                              "theorems cover StepAnalytical, GaussianAnalytical and TransformPair profiles 1-7 (as real functions; tied to the "
+                              "code by evaluating the Lean expressions in Float next to the shipped functions); the "
                               "sample images are quadrature-backed",
                               "sample images: the source function is rebuilt from the class's own peak table (checked against `func` at the "
                               "tested pixels) and integrated by scipy quad", "ApproxGaussian deviation bound (C10, measured)"]
-    ck.cov["unproved_clauses"] = ["TransformPair profile 6 (not polynomial): quadrature", "SampleImage within tolerance (quadrature)"]
+    ck.cov["unproved_clauses"] = ["SampleImage within tolerance (quadrature)"]
     ck.cov["source_fingerprint"] = source_fingerprint(["abel/tools/analytical.py", "abel/tools/transform_pairs.py"])
     ck.proofs("PyAbel.Props.C11")
     ck.proofs("PyAbel.Props.C11Profiles")
+    ck.proofs("PyAbel.Props.C11Profile6")
     correspondence(ck, tier)
     oracle(ck, tier, deep or bool(ck.broken))
     return ck.finish()
